@@ -142,9 +142,11 @@ def clause_env(I, frame, extra=None):
     return env
 
 
-def oblige_clause(I, frame, fi, env, oid, kind, tags):
+def oblige_clause(I, frame, fi, env, oid, kind, tags, bounded=None):
     from .modular import call_spec, MissingState
     ctx = I.ctx
+    if bounded:
+        kind = "bounded"
     try:
         subs = ctx.sub_explore(lambda: I.truth(call_spec(I, fi, env)))
     except MissingState as e:
@@ -153,7 +155,7 @@ def oblige_clause(I, frame, fi, env, oid, kind, tags):
         ctx.obligations.append(Obligation(oid, "frame", "failed", 0.0, "syntactic", str(e), None, ctx.path_index, tags))
         raise PathEnd("frame")
     for extra, v in subs:
-        ctx.oblige(oid, kind, B.z_implies(B.z_and(extra), v), tags=tags)
+        ctx.oblige(oid, kind, B.z_implies(B.z_and(extra), v), tags=tags, detail=bounded)
 
 
 def assume_clause(I, fi, env):
@@ -226,7 +228,8 @@ def exec_while(I, st, frame):
         env = clause_env(I, frame, {"pre": head, "yielded": ListV(yf.yielded[ystart:]) if yf is not None else ListV([])})
         if broke:
             for cl in spec.step:
-                oblige_clause(I, frame, plain_function(cl.fn), env, base + "/step:" + cl.name, "step", cl.props or tags)
+                oblige_clause(I, frame, plain_function(cl.fn), env, base + "/step:" + cl.name, "step", cl.props or tags,
+                          bounded=getattr(cl.fn, "_bounded", None))
             return
         oblige_clause(I, frame, inv, env, base + "/invariant-preserved", "invariant", tags)
         if dec is not None:
@@ -235,7 +238,8 @@ def exec_while(I, st, frame):
             import z3
             ctx.oblige(base + "/decreases", "termination", z3.And(zi(m1) < zi(m0), zi(m0) >= 0), tags=("C03",) + tuple(tags))
         for cl in spec.step:
-            oblige_clause(I, frame, plain_function(cl.fn), env, base + "/step:" + cl.name, "step", cl.props or tags)
+            oblige_clause(I, frame, plain_function(cl.fn), env, base + "/step:" + cl.name, "step", cl.props or tags,
+                          bounded=getattr(cl.fn, "_bounded", None))
         raise PathEnd("loop-cut")
     I.exec_block(st.orelse, frame)
 
@@ -293,7 +297,8 @@ def exec_for(I, st, frame):
         env = clause_env(I, frame, {"pre": head, "element": elem, "pre_element": pre_elem,
                                     "yielded": ListV(yf.yielded[ystart:]) if yf is not None else ListV([])})
         for cl in spec.step:
-            oblige_clause(I, frame, plain_function(cl.fn), env, base + "/step:" + cl.name, "step", cl.props or tags)
+            oblige_clause(I, frame, plain_function(cl.fn), env, base + "/step:" + cl.name, "step", cl.props or tags,
+                          bounded=getattr(cl.fn, "_bounded", None))
         if broke:
             return
         if inv is not None:
